@@ -121,12 +121,14 @@ def cfg_oracle(case, impl):
             for g in seen:
                 last[g] = now
                 le[g] = now
-        elif kind == "x":
-            if gate and not o.startswith("X"):
+        elif kind in ("x", "e"):
+            if not o.startswith("X" if kind == "x" else "E"):
                 return None
-            gate = False
-        elif kind == "e":
-            pass
+            if kind == "x":
+                gate = False
+            if "+" in o and not gate:
+                return ("group(s) %s requested after %s while the lock is not held"
+                        % (",".join(_ids("+" + o.split("+", 1)[1], "+")), "the session expiry" if kind == "x" else "a failed lock.Lock()"))
         elif kind == "r":
             if not o.startswith("R:"):
                 return None
